@@ -44,6 +44,8 @@ FORMS_RAW = {  # formula -> referenced columns (those whose nulls matter)
     "zl + x": ["x"], "za:x + A": ["x", "A"], "zs + x + y": ["x", "y"], "y ~ zl + x": ["y", "x"],
     # text from the context: a numpy string array (no nulls) and an object array whose every 4th entry (1, 5, ..) is None
     "C(zt) + x": ["x"], "C(zo):x + y": ["x", "y"],
+    # a bare name resolving to a context vector that holds the only nulls (positions 2, 6, ..)
+    "zn + x": ["x"], "zn": [], "y ~ zn:A": ["y", "A"],
 }
 CTX_FORMS = {"zl + x": "zl", "za:x + A": "za", "zs + x + y": "zs", "y ~ zl + x": "zl"}
 FORMS = FORMS_RAW
@@ -92,7 +94,7 @@ def gen_case(rng: random.Random, tier: str) -> dict:
         if na == "raise" and caller is not None and rng.random() < 0.6:
             # the caller lists exactly (or a superset of) the rows holding nulls: by the property's wording the
             # raise policy still errors, because an evaluated factor has a null
-            nulls = sorted({i for i in range(n) for c in FORMS[f] if col_values(frame, c)[i] is None} | ({i for i in range(n) if i % 4 == 1} if "zo" in f else set()))
+            nulls = sorted({i for i in range(n) for c in FORMS[f] if col_values(frame, c)[i] is None} | ctx_nulls(f, n))
             caller = sorted(set(nulls) | (set(caller) if rng.random() < 0.5 else set()))
         mat = rng.choice(["pandas", "pandas", "pandas", "narwhals"])
         entry = rng.choice(["mm", "formula", "spec", "spec_over", "mat"])
@@ -102,13 +104,18 @@ def gen_case(rng: random.Random, tier: str) -> dict:
                 "entry": entry, "mat": mat, "ixk": ixk}
 
 
+def ctx_nulls(f, n):
+    return ({i for i in range(n) if i % 4 == 1} if "zo" in f else set()) | ({i for i in range(n) if i % 4 == 2} if "zn" in f else set())
+
+
 def make_ctx(case):
     import pandas as pd
 
     n = nrows(case["frame"])
     z = [100.0 + i for i in range(n)]
     return {"zl": list(z), "za": np.array(z), "zs": pd.Series(z), "zt": np.array(["k", "l", "m"] * n)[:n],
-            "zo": np.array([None if i % 4 == 1 else "pq"[i % 2] for i in range(n)], dtype=object)}
+            "zo": np.array([None if i % 4 == 1 else "pq"[i % 2] for i in range(n)], dtype=object),
+            "zn": np.array([np.nan if i % 4 == 2 else 1.0 + i for i in range(n)])}
 
 
 def run(case, df, s):
@@ -136,7 +143,7 @@ def judge(case) -> Outcome:
     frame, f, na = case["frame"], case["formula"], case["na"]
     n = nrows(frame)
     cols = FORMS[f]
-    nullrows = sorted({i for i in range(n) for c in cols if is_null(col_values(frame, c)[i])} | ({i for i in range(n) if i % 4 == 1} if "zo" in f else set()))
+    nullrows = sorted({i for i in range(n) for c in cols if is_null(col_values(frame, c)[i])} | ctx_nulls(f, n))
     caller = case["caller"]
     df = make_frame(frame)
     s = set(caller) if caller is not None else None
@@ -208,7 +215,7 @@ def judge(case) -> Outcome:
         out.see("context_factor_checks")
         return out
     # values: the same specs on the pre-filtered data give the same matrices
-    if kept and na == "drop" and "zt" not in f and "zo" not in f:
+    if kept and na == "drop" and "zt" not in f and "zo" not in f and "zn" not in f:
         try:
             with quiet():
                 ref = res.model_spec.get_model_matrix(df.iloc[kept])
